@@ -12,44 +12,67 @@ def sh(cmd, cwd=None, timeout=3600):
     p = subprocess.run(cmd, cwd=cwd, shell=True, stdout=subprocess.PIPE, stderr=subprocess.STDOUT, timeout=timeout)
     return p.returncode, p.stdout.decode("utf-8", "replace")
 
-def main():
-    ids = sys.argv[1:] or sorted(os.listdir("/verif/seeded"))
-    if not os.path.exists(WT):
-        sh("git -C /repo worktree add --detach %s HEAD" % WT)
+def run_one(sid, wt):
     rows = []
+    d = os.path.join("/verif/seeded", sid)
+    patch = os.path.join(d, "patch.diff")
+    if not os.path.exists(patch):
+        return rows
+    checks = EXTRA.get(sid) or [sid.split("-")[0]]
+    sh("git checkout -q -- . && git clean -fdq", cwd=wt)
+    rc, o = sh("git apply %s" % patch, cwd=wt)
+    how = "git apply"
+    if rc != 0:
+        rc, o = sh("patch -p1 --fuzz=3 < %s" % patch, cwd=wt)
+        how = "patch --fuzz=3"
+    if rc != 0:
+        return [(sid, "-", "does not apply to HEAD", "")]
+    res = {}
+    for c in checks:
+        t = time.time()
+        rc, o = sh("/verif/tools/mutrun.sh %s %s quick 2>&1 | tail -60" % (wt, c))
+        v = [l for l in o.split("\n") if l.startswith("VIOLATION")]
+        kind = "missed"
+        if v:
+            kind = "failing input" if any("no-failing-input-found" not in x for x in v) else "no-failing-input-found"
+        detail = [l.strip() for l in o.split("\n") if l.startswith("  ")][:2]
+        res[c] = {"result": kind, "detail": detail, "s": round(time.time() - t)}
+        rows.append((sid, c, kind, "; ".join(detail)[:160]))
+        print(sid, c, kind, flush=True)
+    mp = os.path.join(d, "meta.json")
+    meta = json.load(open(mp)) if os.path.exists(mp) else {"property": checks[0], "mutation": sid}
+    meta["matrix"] = {"applied_with": how, "checks": res, "repo_head": sh("git -C /repo rev-parse --short HEAD")[1].strip()}
+    json.dump(meta, open(mp, "w"), indent=1)
+    sh("git checkout -q -- . && git clean -fdq", cwd=wt)
+    return rows
+
+def main():
+    import queue, threading
+    ids = sys.argv[1:] or sorted(os.listdir("/verif/seeded"))
+    par = int(os.environ.get("SEED_PAR", "1"))
+    q = queue.Queue()
     for sid in ids:
-        d = os.path.join("/verif/seeded", sid)
-        patch = os.path.join(d, "patch.diff")
-        if not os.path.exists(patch):
-            continue
-        checks = EXTRA.get(sid) or [sid.split("-")[0]]
-        sh("git checkout -q -- . && git clean -fdq", cwd=WT)
-        rc, o = sh("git apply %s" % patch, cwd=WT)
-        how = "git apply"
-        if rc != 0:
-            rc, o = sh("patch -p1 --fuzz=3 < %s" % patch, cwd=WT)
-            how = "patch --fuzz=3"
-        if rc != 0:
-            rows.append((sid, "-", "does not apply to HEAD", ""))
-            continue
-        res = {}
-        for c in checks:
-            t = time.time()
-            rc, o = sh("/verif/tools/mutrun.sh %s %s quick 2>&1 | tail -60" % (WT, c))
-            v = [l for l in o.split("\n") if l.startswith("VIOLATION")]
-            kind = "missed"
-            if v:
-                kind = "no-failing-input-found" if "no-failing-input-found" in v[0] else "failing input"
-            detail = [l.strip() for l in o.split("\n") if l.startswith("  ")][:2]
-            res[c] = {"result": kind, "detail": detail, "s": round(time.time() - t)}
-            rows.append((sid, c, kind, "; ".join(detail)[:160]))
-            print(sid, c, kind, flush=True)
-        mp = os.path.join(d, "meta.json")
-        meta = json.load(open(mp)) if os.path.exists(mp) else {"property": checks[0], "mutation": sid}
-        meta["matrix"] = {"applied_with": how, "checks": res, "repo_head": sh("git -C /repo rev-parse --short HEAD")[1].strip()}
-        json.dump(meta, open(mp, "w"), indent=1)
-    sh("git checkout -q -- . && git clean -fdq", cwd=WT)
-    sh("git -C /repo worktree remove --force %s" % WT)
+        q.put(sid)
+    rows, lock = [], threading.Lock()
+    def worker(k):
+        wt = "%s%d" % (WT, k)
+        if not os.path.exists(wt):
+            sh("git -C /repo worktree add --detach %s HEAD" % wt)
+        while True:
+            try:
+                sid = q.get_nowait()
+            except queue.Empty:
+                break
+            r = run_one(sid, wt)
+            with lock:
+                rows.extend(r)
+        sh("git -C /repo worktree remove --force %s" % wt)
+    ts = [threading.Thread(target=worker, args=(k,)) for k in range(par)]
+    for t in ts:
+        t.start()
+    for t in ts:
+        t.join()
+    rows.sort()
     print("\n| seeded change | check | result | first finding |\n|---|---|---|---|")
     for r in rows:
         print("| %s | %s | %s | %s |" % r)
